@@ -2,7 +2,7 @@ from propsdef import KERNEL, CORR, HARNESS
 
 PROP = {
         "obligations": [
-            "capture_transparent", "capture_transparent_from", "capture_invariant", "no_fault_no_error",
+            "capture_transparent", "capture_transparent_from", "capture_invariant", "no_fault_no_error", "detection_then_takeover",
             "eof_flips_to_slice", "eof_only_at_end", "capture_error_keeps_bytes", "fault_met_again",
             "capture_released", "no_panic_input", "no_panic_ops",
             "decideList_first_match", "detect_is_first_match", "detect_none", "detect_io_only_from_source",
@@ -20,7 +20,7 @@ PROP = {
             "a reader whose trial reached end of input continues as a slice (theorem eof_flips_to_slice); identity with the explicit *reader* run then additionally needs C02's slice/reader agreement and inherits its known exceptions K1 (unseparated JSON scalars), K2 (zero-document YAML), K3 (duplicate JSON keys to TOML) and serde_yaml's position wording; the end-to-end statement accepts agreement with the explicit slice run exactly when the handle reported having flipped",
             "the source's fault is persistent (SchedReader fail_at); a transient error kind (Interrupted) is outside the model",
         ],
-        "rule": "handle: every program body of <= 4 ops over {B,R0,R1,R3,R7,P1,P4,P7} preceded by B (plus all bodies of <= 2 ops without the leading B) x terminal {none,I1,I4,C} x data sizes {0,1,2,3,5} x 6 schedules x every fault offset under 2 schedules (thorough: all; quick: bodies of <= 2 all, longer sampled 1 in 16), thorough adds length 5 over 2 configurations, plus random programs of up to 14 ops over up to 200 bytes; detectlist: generated valid / mutated / truncated / random inputs of all four formats, trial answers from input_matches_slice/reader, decision from detect_slice/reader, plus all 81 outcome vectors reachable only by table (marked table); mpmarker: all 256 bytes. Implementation-level: translate(None) vs translate(Some(detected)) on the corpus x slice + reader schedules; detection agreement slice vs reader on every input that translates; detect_reader_then_drain returns the input; detection errs only with an injected fault. Non-trivial = the case reached a non-error branch (a byte was observed / a format was selected / the reference translation succeeded); distinct = distinct case text.",
+        "rule": "handle: every program body of <= 4 ops over {B,R0,R1,R3,R7,P1,P4,P7} preceded by B (plus all bodies of <= 2 ops without the leading B) x terminal {none,I1,I4,C} x data sizes {0,1,2,3,5} x 6 schedules x every fault offset under 2 schedules (thorough: all; quick: bodies of <= 2 all, longer sampled 1 in 6), thorough adds length 5 over 2 configurations, plus random programs of up to 14 ops over up to 200 bytes; detectlist: generated valid / mutated / truncated / random inputs of all four formats, trial answers from input_matches_slice/reader, decision from detect_slice/reader; mpmarker: all 256 bytes. Implementation-level: translate(None) vs translate(Some(detected)) on the corpus x slice + reader schedules; detection agreement slice vs reader on every input that translates; detect_reader_then_drain returns the input; detection errs only with an injected fault. Non-trivial = the case reached a non-error branch (a byte was observed / a format was selected / the reference translation succeeded); distinct = distinct case text.",
         "hypotheses": [
             "StreamFunctional(rmp_serde, serde_json, libyaml+chunker, toml) -- sampled as: decision over four fresh-handle trial answers == detect_format on one handle",
             "ExplicitEqDetected -- sampled as translate(None) == translate(Some(detected)) per supply mode",
